@@ -651,9 +651,9 @@ Definition p_reload (fx : fixes) (tid : nat) (c : prog) : prog :=
          yb Y_env_names_update (Wr T_OBJ a (VN 1)           (* env_vars.update(new_vars): in place, only adds *)
            (Rd T_ACCESSED 0 (fun acc =>
               if is_some acc
-              then p_cleaned tid (fun cobj => Rd T_OBJ cobj (fun cc =>
-                     yb Y_env_cleaned_update
-                       (Wr T_OBJ cobj (VN (if Nat.eqb (content old) 1 then content cc else 1)) c)))
+              then yb Y_env_cleaned_update
+                     (p_cleaned tid (fun cobj => Rd T_OBJ cobj (fun cc =>
+                        Wr T_OBJ cobj (VN (if Nat.eqb (content old) 1 then content cc else 1)) c)))
               else c))))))).
 
 Definition call_env (fx : fixes) (tid : nat) (reload : bool) : prog :=
